@@ -281,6 +281,36 @@ pub fn batch_dicts(b: &RecordBatch) -> Vec<(ArrayRef, bool)> {
     out
 }
 
+/// Row tokens of a dictionary's values at the granularity of the writer's dictionary comparison (ArrayData
+/// equality): as vcore::tok, except that inside the values a nested dictionary entry with a null key ("~k")
+/// is told apart from a valid key that denotes a null value (both are the logical null "~" for vcore::tok).
+pub fn cmp_row(a: &dyn Array, i: usize) -> String {
+    use DataType::*;
+    fn seq(a: &dyn Array) -> String {
+        format!("[{}]", (0..a.len()).map(|i| cmp_row(a, i)).collect::<Vec<_>>().join(","))
+    }
+    match a.data_type() {
+        Dictionary(_, _) => {
+            let d = a.as_any_dictionary();
+            if d.keys().is_null(i) || d.values().is_empty() {
+                return "~k".to_string();
+            }
+            cmp_row(d.values().as_ref(), d.normalized_keys()[i])
+        }
+        List(_) if a.is_valid(i) => seq(a.as_list::<i32>().value(i).as_ref()),
+        LargeList(_) if a.is_valid(i) => seq(a.as_list::<i64>().value(i).as_ref()),
+        FixedSizeList(_, _) if a.is_valid(i) => seq(a.as_fixed_size_list().value(i).as_ref()),
+        Struct(_) if a.is_valid(i) => {
+            format!("{{{}}}", a.as_struct().columns().iter().map(|c| cmp_row(c.as_ref(), i)).collect::<Vec<_>>().join(","))
+        }
+        _ => tok::row(a, i),
+    }
+}
+
+pub fn cmp_rows_json(a: &dyn Array) -> Value {
+    Value::Array((0..a.len()).map(|i| Value::String(cmp_row(a, i))).collect())
+}
+
 /// identities of dictionary value arrays within one writer session (ArrayData::ptr_eq)
 #[derive(Default)]
 pub struct ObjIds {
@@ -305,7 +335,7 @@ pub fn dicts_json(b: &RecordBatch, ids: &mut ObjIds) -> Value {
             .iter()
             .map(|(a, _)| {
                 let v = a.as_any_dictionary().values().clone();
-                json!({"vals": tok::rows_json(v.as_ref()), "obj": ids.id(&v)})
+                json!({"vals": cmp_rows_json(v.as_ref()), "obj": ids.id(&v)})
             })
             .collect(),
     )
@@ -313,7 +343,7 @@ pub fn dicts_json(b: &RecordBatch, ids: &mut ObjIds) -> Value {
 
 /// the values attached to every dictionary array of a decoded batch
 pub fn attached_json(b: &RecordBatch) -> Value {
-    Value::Array(batch_dicts(b).iter().map(|(a, _)| tok::rows_json(a.as_any_dictionary().values().as_ref())).collect())
+    Value::Array(batch_dicts(b).iter().map(|(a, _)| cmp_rows_json(a.as_any_dictionary().values().as_ref())).collect())
 }
 
 pub fn cols_json(b: &RecordBatch) -> Value {
@@ -393,7 +423,7 @@ impl Parser {
                         .flatten()
                 });
                 match vals {
-                    Some(b) => out["vals"] = tok::rows_json(b.column(0).as_ref()),
+                    Some(b) => out["vals"] = cmp_rows_json(b.column(0).as_ref()),
                     None => out["k"] = json!("dict-undecodable"),
                 }
                 // keep the reader-side state for dictionaries nested in later dictionary batches
